@@ -44,6 +44,9 @@ type Model struct {
 	Dead   []DeadRelay
 	Closed bool            // server closed
 	Gone   map[string]bool // clients whose control connection is closed
+	// ExtraDeadlines and ConnView are filled in by the TCP part before each menu call.
+	ExtraDeadlines []time.Time
+	ConnView       map[string][]ConnView
 }
 
 // NewModel creates an empty model.
@@ -82,9 +85,14 @@ func (m *Model) Drop(name string) {
 	}
 }
 
+// ConnView is what a menu may know about a modelled peer data connection.
+type ConnView struct {
+	Bound, In bool
+}
+
 // Deadlines returns all pending expiry instants, sorted, de-duplicated.
 func (m *Model) Deadlines() []time.Time {
-	var out []time.Time
+	out := append([]time.Time(nil), m.ExtraDeadlines...)
 	for _, a := range m.Allocs {
 		out = append(out, a.Exp)
 		for _, e := range a.Perms {
@@ -175,6 +183,11 @@ func (m *Model) Key(now time.Time) string {
 			fmt.Fprintf(&sb, " c(%#x->%s)=%v", n, c.Peer, c.Exp.Sub(now))
 		}
 		sb.WriteString("] ")
+	}
+	for _, cn := range names {
+		for i, cv := range m.ConnView[cn] {
+			fmt.Fprintf(&sb, "%s.conn%d(bound=%v,in=%v) ", cn, i, cv.Bound, cv.In)
+		}
 	}
 	fmt.Fprintf(&sb, "dead=%d", len(m.Dead))
 
